@@ -1,0 +1,118 @@
+//go:build verif
+
+// Contracts for the streaming codec (property C01), read by /verif/gocv. The reader side is
+// specified against the same array-level functions (varuintAtA, le16a, ...) as the zero-copy
+// source in package common, so both decoders agree by construction of their contracts; the
+// writer side hands the stream exactly the bytes the zero-copy sink appends (isVarUintAtA).
+package serialization
+
+//@ spec rdRemaining(reader io.Reader) uint64 = rdLen(ref(reader)) - rdPos[ref(reader)]
+//@ spec rdWF(reader io.Reader) bool = rdPos[ref(reader)] <= rdLen(ref(reader))
+
+//@ func WriteVarUint
+//@   property C01
+//@   ghost var nw int = 0
+//@   set after "_, err := writer.Write(buf[:len])" : nw := nw + 1
+//@   ensures nw == 1
+//@   callsite[encoding] Write#1 requires uint64(len(arg0)) == common.varlen(value) && common.isVarUintAt(arg0, 0, value)
+
+//@ func GetVarUintSize
+//@   property C01
+//@   ensures uint64(result) == common.varlen(value)
+
+//@ func WriteUint8
+//@   property C01
+//@   callsite[encoding] Write#1 requires len(arg0) == 1 && arg0[0] == val
+//@ func WriteUint16
+//@   property C01
+//@   callsite[encoding] Write#1 requires len(arg0) == 2 && common.le16(arg0, 0) == val
+//@ func WriteUint32
+//@   property C01
+//@   callsite[encoding] Write#1 requires len(arg0) == 4 && common.le32(arg0, 0) == val
+//@ func WriteUint64
+//@   property C01
+//@   callsite[encoding] Write#1 requires len(arg0) == 8 && common.le64(arg0, 0) == val
+//@ func WriteByte
+//@   property C01
+//@   callsite[encoding] Write#1 requires len(arg0) == 1 && arg0[0] == val
+//@ func WriteBytes
+//@   property C01
+//@   callsite[encoding] Write#1 requires arg0 == value
+//@ func WriteVarBytes
+//@   property C01
+//@   callsite[length-prefix] WriteVarUint#1 requires arg1 == uint64(len(value))
+//@   callsite[payload] Write#1 requires arg0 == value
+
+//@ func ReadUint8
+//@   property C01
+//@   requires rdWF(reader)
+//@   modifies rdPos
+//@   ensures err == nil <==> old(rdRemaining(reader)) >= 1
+//@   ensures err == nil ==> r0 == old(rdData(ref(reader))[rdPos[ref(reader)]]) && rdPos[ref(reader)] == old(rdPos[ref(reader)]) + 1
+//@   ensures rdWF(reader)
+//@ func ReadUint16
+//@   property C01
+//@   requires rdWF(reader)
+//@   modifies rdPos
+//@   ensures err == nil <==> old(rdRemaining(reader)) >= 2
+//@   ensures err == nil ==> r0 == common.le16a(rdData(ref(reader)), old(rdPos[ref(reader)])) && rdPos[ref(reader)] == old(rdPos[ref(reader)]) + 2
+//@   ensures rdWF(reader)
+//@ func ReadUint32
+//@   property C01
+//@   requires rdWF(reader)
+//@   modifies rdPos
+//@   ensures err == nil <==> old(rdRemaining(reader)) >= 4
+//@   ensures err == nil ==> r0 == common.le32a(rdData(ref(reader)), old(rdPos[ref(reader)])) && rdPos[ref(reader)] == old(rdPos[ref(reader)]) + 4
+//@   ensures rdWF(reader)
+//@ func ReadUint64
+//@   property C01
+//@   requires rdWF(reader)
+//@   modifies rdPos
+//@   ensures err == nil <==> old(rdRemaining(reader)) >= 8
+//@   ensures err == nil ==> r0 == common.le64a(rdData(ref(reader)), old(rdPos[ref(reader)])) && rdPos[ref(reader)] == old(rdPos[ref(reader)]) + 8
+//@   ensures rdWF(reader)
+
+//@ func ReadVarUint
+//@   property C01
+//@   requires rdWF(reader)
+//@   modifies rdPos
+//@   -- success exactly when the whole encoding is available and the value is within maxint (0 = no limit)
+//@   ensures err == nil <==> (old(rdRemaining(reader)) >= 1 && old(rdRemaining(reader)) >= common.varsizeAtA(rdData(ref(reader)), old(rdPos[ref(reader)])) && (maxint == 0 || common.varuintAtA(rdData(ref(reader)), old(rdPos[ref(reader)])) <= maxint))
+//@   ensures[value] err == nil ==> r0 == common.varuintAtA(rdData(ref(reader)), old(rdPos[ref(reader)]))
+//@   ensures[consumed] err == nil ==> rdPos[ref(reader)] == old(rdPos[ref(reader)]) + common.varsizeAtA(rdData(ref(reader)), old(rdPos[ref(reader)]))
+//@   ensures err != nil ==> r0 == 0
+//@   ensures rdWF(reader)
+
+//@ func byteXReader
+//@   property C01
+//@   mode abstract   -- the slow path (>= 2 MiB: io.LimitReader + bytes.Buffer.ReadFrom) is uncontracted; not decided
+//@   nopanic on
+//@   requires rdWF(reader)
+//@   modifies rdPos, Store
+//@   ensures x == 0 ==> err == nil && len(r0) == 0 && rdPos[ref(reader)] == old(rdPos[ref(reader)])
+//@   ensures (x != 0 && x < 2097152) ==> (err == nil <==> old(rdRemaining(reader)) >= x)
+//@   ensures (x != 0 && x < 2097152 && err == nil) ==> uint64(len(r0)) == x && rdPos[ref(reader)] == old(rdPos[ref(reader)]) + x
+//@   ensures (x != 0 && x < 2097152 && err == nil) ==> forall i uint64 :: i < x ==> r0[i] == rdData(ref(reader))[old(rdPos[ref(reader)]) + i]
+//@   ensures (x != 0 && x < 2097152) ==> rdWF(reader)
+
+//@ func ReadByte
+//@   property C01
+//@   requires rdWF(reader)
+//@   modifies rdPos, Store
+//@   ensures err == nil <==> old(rdRemaining(reader)) >= 1
+//@   ensures err == nil ==> r0 == rdData(ref(reader))[old(rdPos[ref(reader)])] && rdPos[ref(reader)] == old(rdPos[ref(reader)]) + 1
+
+//@ func ReadVarBytes
+//@   property C01
+//@   mode abstract   -- inherits byteXReader's undecided slow path
+//@   nopanic on
+//@   requires rdWF(reader)
+//@   modifies rdPos, Store
+//@   -- for announced lengths below 2 MiB (the fast path): success iff prefix and payload are fully available
+//@   ensures (err == nil && common.varuintAtA(rdData(ref(reader)), old(rdPos[ref(reader)])) < 2097152) ==> uint64(len(r0)) == common.varuintAtA(rdData(ref(reader)), old(rdPos[ref(reader)]))
+//@   ensures (err == nil && common.varuintAtA(rdData(ref(reader)), old(rdPos[ref(reader)])) < 2097152) ==> rdPos[ref(reader)] == old(rdPos[ref(reader)]) + common.varsizeAtA(rdData(ref(reader)), old(rdPos[ref(reader)])) + uint64(len(r0))
+//@   ensures (err == nil && common.varuintAtA(rdData(ref(reader)), old(rdPos[ref(reader)])) < 2097152) ==> forall i uint64 :: i < uint64(len(r0)) ==> r0[i] == rdData(ref(reader))[old(rdPos[ref(reader)]) + common.varsizeAtA(rdData(ref(reader)), old(rdPos[ref(reader)])) + i]
+//@   -- a length prefix larger than the remaining data is an error, never wrong data
+//@   ensures (old(rdRemaining(reader)) >= 1 && old(rdRemaining(reader)) >= common.varsizeAtA(rdData(ref(reader)), old(rdPos[ref(reader)])) && common.varuintAtA(rdData(ref(reader)), old(rdPos[ref(reader)])) < 2097152 && common.varuintAtA(rdData(ref(reader)), old(rdPos[ref(reader)])) > old(rdRemaining(reader)) - common.varsizeAtA(rdData(ref(reader)), old(rdPos[ref(reader)]))) ==> err != nil
+//@   -- a truncated length prefix is an error
+//@   ensures (old(rdRemaining(reader)) == 0 || old(rdRemaining(reader)) < common.varsizeAtA(rdData(ref(reader)), old(rdPos[ref(reader)]))) ==> err != nil
